@@ -156,6 +156,55 @@ func samePlace(a, b ssa.Value) bool {
 	if a == b || sameOrigins(a, b) {
 		return true
 	}
+	// the same pure expression written twice (`p.spokfile()` called for the test and again for the write, once inlined:
+	// two filepath.Join calls over the same operands)
+	if ca, okA := a.(*ssa.Call); okA {
+		if cb, okB := b.(*ssa.Call); okB && calleeName(ca.Common()) == calleeName(cb.Common()) && !ca.Common().IsInvoke() {
+			switch calleeName(ca.Common()) {
+			case "path/filepath.Join", "path/filepath.Dir", "path/filepath.Clean", "path/filepath.Base", "path/filepath.FromSlash", "path/filepath.ToSlash":
+				aa, ab := ca.Common().Args, cb.Common().Args
+				if len(aa) == len(ab) {
+					all := true
+					for i := range aa {
+						ea, eb := variadicElems(aa[i]), variadicElems(ab[i])
+						if ea != nil && eb != nil {
+							if len(ea) != len(eb) {
+								all = false
+								break
+							}
+							for k := range ea {
+								if !samePlace(ea[k], eb[k]) {
+									all = false
+								}
+							}
+							continue
+						}
+						if !samePlace(aa[i], ab[i]) {
+							all = false
+						}
+					}
+					if all {
+						return true
+					}
+				}
+			}
+		}
+	}
+	if ka, okA := a.(*ssa.Const); okA {
+		if kb, okB := b.(*ssa.Const); okB && ka.Value != nil && kb.Value != nil && ka.Value.ExactString() == kb.Value.ExactString() && types.Identical(ka.Type(), kb.Type()) {
+			return true
+		}
+	}
+	if cva, okA := a.(*ssa.Convert); okA {
+		if cvb, okB := b.(*ssa.Convert); okB && types.Identical(cva.Type(), cvb.Type()) && samePlace(cva.X, cvb.X) {
+			return true
+		}
+	}
+	if cva, okA := a.(*ssa.ChangeType); okA {
+		if cvb, okB := b.(*ssa.ChangeType); okB && samePlace(cva.X, cvb.X) {
+			return true
+		}
+	}
 	ua, ok1 := a.(*ssa.UnOp)
 	ub, ok2 := b.(*ssa.UnOp)
 	if ok1 && ok2 && ua.Op == token.MUL && ub.Op == token.MUL {
